@@ -235,7 +235,10 @@ def gfa_lines(g, with_seq=True, extra_tags=None, link_tags=None):
 def gfa_text(g, with_seq=True, extra_tags=None, order_seed=None, header=False, link_tags=None):
     s_lines, l_lines = gfa_lines(g, with_seq, extra_tags, link_tags)
     lines = s_lines + l_lines
-    if order_seed is not None:
+    if order_seed is not None and order_seed % 4 == 3:
+        # segments listed end-to-start (descending offsets), links after them: a common layout of hand-assembled files
+        lines = list(reversed(s_lines)) + l_lines
+    elif order_seed is not None:
         random.Random(order_seed).shuffle(lines)
     if header:
         lines = ["H\tVN:Z:1.0"] + lines
